@@ -13,7 +13,10 @@ echo "== demo on unchanged tree"
 ( cd "$DIR" && PYTHONPATH="$W/src:$DIR" timeout 300 /venv/bin/python demo.py 2>&1 | tail -2 ); 
 git apply "$DIR/patch.diff" || { echo "PATCH DOES NOT APPLY"; git -C /repo worktree remove --force "$W"; exit 2; }
 echo "== demo with the change"
-( cd "$DIR" && PYTHONPATH="$W/src:$DIR" timeout 300 /venv/bin/python demo.py 2>&1 | tail -2 )
+( cd "$DIR" && PYTHONPATH="$W/src:$DIR" timeout 300 /venv/bin/python demo.py > "$W/.demo.out" 2>&1; echo "demo exit=$?" >> "$W/.demo.out"; tail -3 "$W/.demo.out" )
+if grep -q "demo exit=0" "$W/.demo.out"; then
+  echo "DEMO PASSES WITH THE CHANGE: the patch does not (or no longer) break what its demo shows - applied at the wrong place, or overtaken by a later repair"
+fi
 if [ "${4:-}" != "--no-suite" ]; then
   echo "== suite with the change"
   PYTHONPATH="$W/src" timeout 900 /venv/bin/python -m pytest -q -p no:cacheprovider --timeout=900 tests 2>&1 | tail -1
